@@ -26,7 +26,7 @@ import (
 
 type c12Restart struct {
 	Op   int    `json:"op"`   // index of the participant's key-generation operation (0 commits, 1 deals, 2 responses, 3 master key)
-	Mode string `json:"mode"` // after | computed (result computed, nothing logged) | logged (logged, result file could not be written)
+	Mode string `json:"mode"` // after | computed (result computed, nothing logged) | logged (logged, result file could not be written) | premature (stopped before the step; the operator feeds the step to the reopened machine before replaying the log, is refused, then replays)
 }
 
 type c12Plan struct {
@@ -48,7 +48,7 @@ func c12Gen(rt *rapid.T) c12Plan {
 			continue
 		}
 		seen[op] = true
-		p.Restarts = append(p.Restarts, c12Restart{Op: op, Mode: rapid.SampledFrom([]string{"after", "computed", "logged"}).Draw(rt, "mode")})
+		p.Restarts = append(p.Restarts, c12Restart{Op: op, Mode: rapid.SampledFrom([]string{"after", "computed", "logged", "premature"}).Draw(rt, "mode")})
 	}
 	return p
 }
@@ -134,6 +134,27 @@ func c12Execute(p c12Plan, withRestarts bool, root string) (obs c12Obs) {
 		_ = os.Remove(resultPath)
 		var resFile []byte
 		switch mode {
+		case "premature":
+			// the machine was stopped before this step; the operator reopens it and - forgetting the documented replay -
+			// feeds the step first. Whatever the machine says to that (for every step but the first it cannot know the
+			// round and refuses), it must be without consequences: the operator then replays the log and feeds the step again.
+			if err := m.Reopen(); err != nil {
+				return fmt.Errorf("reopen (premature feed of op %d): %w", opIndex, err)
+			}
+			if opIndex > 0 {
+				func() {
+					defer func() { _ = recover() }() // a crash of the prompt here is C18's business; the operator restarts it
+					_, _ = m.M.ProcessOperation(operation, true)
+				}()
+				_ = os.Remove(resultPath)
+			}
+			if err := restart(fmt.Sprintf("before op %d, after a premature feed", opIndex)); err != nil {
+				return err
+			}
+			resFile, err = m.Process(file)
+			if err != nil {
+				return fmt.Errorf("airgapped after premature feed, restart and replay: %w", err)
+			}
 		case "computed":
 			// the machine computes the result and dies before anything is logged or written
 			if _, err := m.M.GetOperationResult(operation); err != nil {
@@ -325,7 +346,7 @@ func TestC12(t *testing.T) {
 		for _, nt := range pairs {
 			for part := 0; part < nt[0]; part++ {
 				for op := 0; op < 4; op++ {
-					for _, mode := range []string{"after", "computed", "logged"} {
+					for _, mode := range []string{"after", "computed", "logged", "premature"} {
 						job++
 						if job%sn != si {
 							continue
